@@ -149,6 +149,10 @@ class Ctx:
         self.collect_notes(out)
         gen, dist = self.tlc_stats(out)
         self.cov["passes"].append({"pass": label, "events": n_lines, "tlc_states": dist, "wall_s": round(dt, 1)})
+        # every recorded step is one TLC state / transition of the trace specification
+        self.cov["trace_states"] = self.cov.get("trace_states", 0) + dist
+        self.cov["states"] += dist
+        self.cov["transitions"] += max(dist - 1, 0)
         m = re.search(r"(Action property|Invariant|Temporal property) (\S+) (is|was) violated", out)
         if m:
             ls = re.findall(r"^/\\ l = (\d+)", out, re.M)
